@@ -803,6 +803,9 @@ func init() {
 			if n > 0 && cnt == n {
 				return 0, io.ErrClosedPipe
 			}
+			if n < 0 {
+				return 0, nil // a writer that drops the packet and says so with a zero count and no error
+			}
 			return 188, nil
 		}))
 		w.Write(b)
